@@ -146,7 +146,19 @@ func (x *Exec) goTo(st *State, from, to *ssa.BasicBlock) {
 		if top {
 			x.autoRangeInv(st, li, "init")
 		}
+		var cnt0 Term
+		if li.countVar != nil {
+			if v, ok := fr.locals[li.countVar]; ok {
+				cnt0 = v
+			}
+		}
 		x.havocLoop(st, li)
+		if cnt0.S != "" {
+			// counting loop: the counter never drops below its initial value (engine-generated
+			// invariant, re-proved at the back edge)
+			st.ghost[fmt.Sprintf("$cnt%d", li.ordinal)] = cnt0
+			st.Assume(Ge(fr.locals[li.countVar], cnt0))
+		}
 		st.ghost[fmt.Sprintf("$held%d", li.ordinal)] = mk(SInt, fmt.Sprint(len(st.held)))
 		if top && li.lc != nil {
 			env := x.envAt(st)
@@ -188,6 +200,12 @@ func (x *Exec) checkLockset(st *State, li *loopInfo) {
 // autoRangeInv proves -1 <= rangeindex < len for range loops (engine-generated invariant).
 func (x *Exec) autoRangeInv(st *State, li *loopInfo, phase string) {
 	if li.rangeIdx == nil {
+		if c0, ok := st.ghost[fmt.Sprintf("$cnt%d", li.ordinal)]; ok && li.countVar != nil && phase == "preserved" {
+			if v, ok := st.fr.locals[li.countVar]; ok {
+				o := x.oblig(fmt.Sprintf("loop%d/counter-lower-bound/%s", li.ordinal, phase), "invariant-auto", nil, li.head.Instrs[0].Pos())
+				x.Assert(st, o, Ge(v, c0))
+			}
+		}
 		return
 	}
 	// find the length operand in the head's comparison
